@@ -116,6 +116,10 @@ def gen_case(run_seed: int, tier: str) -> dict[str, Any]:
         tree[docs[0]] = dict(tree[docs[0]], xattr=1)  # the file carries user.* extended attributes
     if envr.random() < 0.15:
         tree[docs[0]] = dict(tree[docs[0]], mode=envr.choice([0o444, 0o400, 0o755, 0o2664, 0o600]))  # permission bits
+    if envr.random() < 0.06:
+        # the file is a mount point (a single file bind-mounted into a container): another
+        # st_dev than its directory; rename of/over it and unlink fail with EBUSY
+        tree[docs[0]] = dict(tree[docs[0]], mnt=1)
     if envr.random() < 0.05 and "/" in docs[0]:
         # the file is also reachable through a symlinked parent directory
         tree["ldir"] = {"l": os.path.dirname(docs[0])}
@@ -525,6 +529,9 @@ def _exec_once(case: dict[str, Any], scratch: str, faults: list[dict[str, Any]],
         knobs = dict(knobs, euid=case["euid"])
     if case.get("low_disk"):
         knobs = dict(knobs, low_disk=True)
+    mounts = [rel for rel, e in case["tree"].items() if e.get("mnt")]
+    if mounts:
+        knobs = dict(knobs, mounts=mounts)
     ex = Exec(case, os.path.join(scratch, "t"), faults, knobs, new)
     res = ex.run()
     return ex, res
@@ -573,8 +580,12 @@ def _run_case(env: Env, case: dict[str, Any], scratch: str, want_trace: bool) ->
             exs, res_s = _exec_once(solo, scratch, [], {"listing": "native"}, None)
             got = simproc.read_bytes(os.path.join(exs.root, rel))
             new[rel] = got
-            if res_s.exit != 0 and "f" in case["tree"][rel]:
+            write_stage_failed = any(o_.op in simproc.MUTATING and o_.outcome not in ("ok",) for o_ in exs.ip.log)
+            if res_s.exit != 0 and "f" in case["tree"][rel] and not write_stage_failed:
                 # "If reading, decoding or formatting fails nothing is modified" - fault-free form
+                # (a run that got as far as writing and failed *there* - EBUSY on a mount-point
+                # target - is not this clause's business: documents and bystanders are judged by
+                # the old-or-new invariant, the names of left-over temporaries are unconstrained)
                 before = {r: (e["f"] if "f" in e else e) for r, e in exs.tree.items()}
                 after_t = {r: (ent[1] if ent[0] == "f" else {"l": ent[1]} if ent[0] == "l" else {"d": 1}) for r, ent in simproc.snapshot(exs.root).items() if ent[0] != "d"}
                 before_t = {r: v for r, v in before.items() if not (isinstance(v, dict) and "d" in v)}
